@@ -4,8 +4,9 @@
     break, precedence) over every column of <=3 cell classes, the time-column gate of stringsToTimeMicros, and the
     decision tables of arrowColumnToTyped / parquetColumnToTimeMicros; invariants: the inferred type holds every
     cell of the column (CsvLossless), it is the narrowest such type, a refused file stores nothing and a file is
-    refused only when it cannot be imported completely.  MC_pq_u64.cfg (thorough) asks whether every parquet value
-    fits the stored type: TLC's counter-example (uint64 above 2^63-1) is a candidate the replay confirms or not.
+    refused only when it cannot be imported completely, every parquet value of an accepted file fits the stored
+    type (uint64 above 2^63-1 refuses the file since repo commit 4025fa4).  MC_pq_u64.cfg (thorough) is the negative
+    control: the as-first-written plain int64() cast must be rejected by TLC.
 (G) TLC enumerates abstract files (every column of <=3 cells; every option combination time_format x time cell
     class x unit x delimiter x skip_rows x time_column name/position x bad last row; three-column files; every
     parquet column type with nulls and both value ranges; every parquet time column type x time_format x unit) with
@@ -39,15 +40,17 @@ def run(ctx):
         if fired.get(a, 0) == 0:
             raise InfraError("vacuous model: action %s never fired (%s)" % (a, fired))
     note = {"cfg": "MC_small.cfg", "distinct": mc.distinct, "generated": mc.generated, "depth": mc.depth,
-            "invariants": ["CsvLossless", "CsvNarrowest", "AllOrNothing", "RejectJustified", "PqLossless(range=mid)"],
+            "invariants": ["CsvLossless", "CsvNarrowest", "AllOrNothing", "RejectJustified", "PqLossless"],
             "actions_fired": fired}
     if not quick:
         for cfg in ("MC_large.cfg", "MC_deep.cfg", "MC_pq2.cfg"):
             r = ctx.tlc("fileimport", "FileImport", cfg, timeout=1500)
             note[cfg] = {"distinct": r.distinct, "generated": r.generated, "depth": r.depth}
         u = ctx.tlc("fileimport", "FileImport", "MC_pq_u64.cfg", allow_violation=True, timeout=600)
-        ctx.note("tlc_parquet_value_range", {"cfg": "MC_pq_u64.cfg", "violated": u.violated,
-                 "meaning": "candidate only: arrowColumnToTyped casts uint64 to int64, values above 2^63-1 cannot be held"})
+        if u.violated != "PqLossless":
+            raise InfraError("negative control MC_pq_u64.cfg (plain int64() cast of uint64) was not rejected by TLC: %s" % u.violated)
+        ctx.note("tlc_negative_control", {"cfg": "MC_pq_u64.cfg", "violated": u.violated,
+                 "meaning": "the as-first-written variant (U64Check = FALSE: uint64 cast to int64) breaks PqLossless, as expected"})
     ctx.note("tlc_model_check", note)
 
     gen = ctx.tlc("fileimport", "FileImport", "Gen_quick.cfg" if quick else "Gen_thorough.cfg", timeout=1500, workers=4)
